@@ -295,12 +295,14 @@ def build(u: Unit, r: UnitResult, d: str, cover: bool):
         if rc != 0:
             r.status, r.reason, r.log_tail = "error", "generate-function-body failed", tail(os.path.join(d, "gen.log"))
             return None
-        # normalisation pass: re-reading and re-writing the binary avoids a goto-instrument 6.11 crash
-        # (goto_inline parameter_assignments "Unreachable") when DFCC inlines freshly generated bodies
-        nx2 = os.path.join(d, "n%s.gb" % sfx)
-        rc, _ = run(["goto-instrument", nxt, nx2], os.path.join(d, "norm.log"), timeout=120)
-        cur = nx2 if rc == 0 else nxt
+        cur = nxt
         r.stubs_generated = undef
+    if not u.no_dfcc:
+        # normalisation pass: re-reading and re-writing the binary avoids a goto-instrument 6.11 crash
+        # (goto_inline parameter_assignments "Unreachable") when DFCC inlines calls
+        nx2 = os.path.join(d, "n%s.gb" % sfx)
+        rc, _ = run(["goto-instrument", cur, nx2], os.path.join(d, "norm.log"), timeout=120)
+        cur = nx2 if rc == 0 else cur
     # 4. contract instrumentation
     if not u.no_dfcc:
         cmd = ["goto-instrument", "--dfcc", u.entry]
@@ -431,7 +433,8 @@ def run_unit(u: Unit, want_trace=True) -> UnitResult:
         prop_fail = [o for o in r.failed if o.klass == "property"]
         r.status = "violation" if prop_fail else "internal_fail"
         if want_trace:
-            tgt = (prop_fail or r.failed)[0]
+            named = [o for o in (prop_fail or r.failed) if re.match(r"C\d\d\.", o.desc)]
+            tgt = (named or prop_fail or r.failed)[0]
             tl = os.path.join(d, "trace.json")
             rc2, _ = run(cb + ["--trace", "--property", tgt.pid], tl, timeout=u.timeout, mem_gb=u.mem_gb)
             if rc2 in (0, 10):
@@ -459,6 +462,11 @@ def compact_trace(steps, limit=4000):
             v = s.get("value", {})
             val = v.get("data", v.get("name"))
             if val is None and "elements" in v:
+                for e in v["elements"]:
+                    ev = e.get("value", {})
+                    if ev.get("data") is not None:
+                        out.append({"lhs": "%s[%s]" % (lhs, e.get("index")), "value": ev.get("data"), "fn": s.get("sourceLocation", {}).get("function"),
+                                    "line": s.get("sourceLocation", {}).get("line")})
                 continue
             if val is None and "members" in v:
                 continue
@@ -475,12 +483,17 @@ def compact_trace(steps, limit=4000):
 
 
 def inputs_from_trace(trace, prefix="in_"):
-    """Last value assigned to each harness input variable (name starts with prefix)."""
+    """Last value assigned inside the harness to each harness-level variable (VP_IN assigns the nondeterministic input
+    after the declaration); variables whose name starts with `prefix` are taken from anywhere."""
     vals = {}
     if not trace:
         return vals
     for s in trace["steps"]:
         lhs = s.get("lhs")
-        if lhs and lhs.startswith(prefix) and s.get("value") is not None:
+        if not lhs or s.get("value") is None:
+            continue
+        if lhs.startswith("__") or "$" in lhs or "!" in str(s["value"]):
+            continue
+        if lhs.startswith(prefix) or s.get("fn") == "vp_harness":
             vals[lhs] = s["value"]
     return vals
